@@ -251,15 +251,15 @@ Proof.
   { destruct (bind_snd _ _ _ BD) as [_ B2]. apply (f_equal (@List.length ident)) in B2. unfold vars, ptrs in *. rewrite !map_length in *. lia. }
   (* what the jump leaves alone *)
   assert (KEEPJ : forall s', frame_ok s' sp -> frame_eq s s' sp ->
-             (forall l, loc_ok l -> l <> AR TEMP -> l <> t2 -> lget s' sp l = lget s sp l) ->
+             (forall l, loc_ok l -> l <> AR TEMP -> l <> AR TEMP2 -> l <> t2 -> lget s' sp l = lget s sp l) ->
              hrel (cl_ctx cl) (attach e1 (ptrs he0)) hs s' sp /\ lget s' sp (mtpos (2 * N.of_nat (List.length (cl_ctx cl)))) = Some q /\
              hframe_eq s s' sp /\ heap s' = heap s).
   { intros s' F' FE' LG. pose proof FE' as (HE' & _ & _).
     split; [|split; [|split; [apply frame_eq_hframe; exact FE'|exact HE']]].
     - apply (hrel_keep (ptypes p) CLO _ _ hs s s' sp R1 F' HE').
-      + apply (LG (AR HEAP)); [exact I|discriminate|congruence].
-      + apply (LG (AR FREE)); [exact I|discriminate|congruence].
-      + intros j bj n tj Hj _ Tj. destruct (atpos_ok _ _ _ Tj) as (((A & B & _) & _) & _). apply LG; auto.
+      + apply (LG (AR HEAP)); [exact I|discriminate|discriminate|congruence].
+      + apply (LG (AR FREE)); [exact I|discriminate|discriminate|congruence].
+      + intros j bj n tj Hj _ Tj. destruct (atpos_ok _ _ _ Tj) as (((A & B & B2) & _) & _). apply LG; auto.
         intros E; subst tj. assert (Lj : (j < List.length (cl_ctx cl))%nat) by (apply nth_error_Some; congruence).
         destruct (SubstGraph.tpos_inj a64_backend a64_backend_ok _ _ _ _ _ Tj T2') as [_ E]. lia.
     - rewrite LC0. pose proof T1' as T1''. apply atpos_mtpos in T1'' as [E1 _]. cbn [tnum_n] in E1. rewrite N.add_0_r in E1.
@@ -273,14 +273,14 @@ Proof.
     - (* one destructor: branch through the temporary *)
       subst cd. rewrite Z.add_0_r in GO. destruct t2 as [r|q']; cbn [a_jump lget loc_ok] in *.
       + apply code_at_cons in CA as [CJ _].
-        destruct (KEEPJ s F (frame_eq_refl s sp) (fun _ _ _ _ => eq_refl)) as (A1 & A2 & A3 & A4).
+        destruct (KEEPJ s F (frame_eq_refl s sp) (fun _ _ _ _ _ => eq_refl)) as (A1 & A2 & A3 & A4).
         exists s. split; [|auto]. eapply exec_jump; [exact CJ|apply (GO r s L2)|apply exec_refl].
       + apply code_at_cons in CA as [C0 CA]. apply code_at_cons in CA as [CJ _].
         set (s1 := rset s TEMP (Some a)).
         destruct (KEEPJ s1) as (A1 & A2 & A3 & A4).
         { apply frame_ok_rset; [rewrite TEMP_is; discriminate|exact F]. }
         { apply frame_eq_rset. }
-        { intros l Ll Nl _. apply (lget_lset_other s sp (AR TEMP) l); [apply F|rewrite TEMP_is; exact I|exact Ll|congruence]. }
+        { intros l Ll Nl _ _. apply (lget_lset_other s sp (AR TEMP) l); [apply F|rewrite TEMP_is; exact I|exact Ll|congruence]. }
         exists s1. split; [|auto].
         eapply exec_next; [exact C0|rewrite (step_LDR_slot im s sp F) by exact Lt2; rewrite L2; reflexivity|].
         eapply exec_jump; [exact CJ|apply GO; rewrite TEMP_is; apply rget_rset_same; exact I|apply exec_refl].
@@ -289,32 +289,42 @@ Proof.
       set (off := jump_length (N.of_nat k)) in *.
       assert (OFF : 0 <= off) by (unfold off, jump_length; lia).
       assert (W : wrap (a + off) = a + off) by (apply wrap_small_range; lia).
+      assert (IV : add_imm_fits off = false -> in64 off) by (intros _; unfold in64, two63; lia).
+      assert (KEEPX : forall sb s1 rn, spv s1 = spv sb -> stack s1 = stack sb ->
+                (forall m, m <> rn -> m <> 3%N -> xget s1 m = xget sb m) ->
+                forall l, loc_ok l -> l <> AR (X rn) -> l <> AR TEMP2 -> lget s1 sp l = lget sb sp l).
+      { intros sb s1 rn Hsp Hst KP l Ll N1 N2. destruct l as [[m| |]|ql]; cbn [loc_ok gp] in Ll; try tauto; cbn [lget rget].
+        - apply KP; [congruence|]. intros ->. apply N2. rewrite TEMP2_is. reflexivity.
+        - unfold sget. rewrite Hst. reflexivity. }
       destruct t2 as [r|q']; cbn [a_add_and_jump lget loc_ok] in *.
-      + apply code_at_cons in CA as [C0 CA]. apply code_at_cons in CA as [CJ _].
-        set (s1 := rset s r (Some (a + off))).
-        assert (ST : step im (ADDI r r off) s = Next s1).
-        { rewrite (step_ADDI_reg im s r r a off L2), W. reflexivity. }
+      + destruct r as [rn| |]; cbn [gp] in Lt2; try tauto.
+        apply code_at_app in CA as [CA0 CJ]. apply code_at_cons in CJ as [CJ _].
+        assert (N3 : rn <> 3%N) by (intros ->; apply Nt22; rewrite TEMP2_is; reflexivity).
+        destruct (a64_add_offset_ok im s rn off a Lt2 N3 L2 IV) as (s1 & RS & V1' & KP & Hsp & Hh & Hst & Ho).
+        rewrite W in V1'.
         destruct (KEEPJ s1) as (A1 & A2 & A3 & A4).
-        { unfold s1. apply frame_ok_rset; [apply gp_not_sp; exact Lt2|exact F]. }
-        { apply frame_eq_rset. }
-        { intros l Ll Nl N2. unfold s1. apply (lget_lset_other s sp (AR r) l); [apply F|exact Lt2|exact Ll|congruence]. }
+        { split; [rewrite Hsp; apply F|apply F]. }
+        { split; [exact Hh|split; [exact Ho|intros kk _; rewrite Hst; reflexivity]]. }
+        { intros l Ll Nl N2' N3'. apply (KEEPX s s1 rn Hsp Hst KP l Ll N3' N2'). }
         exists s1. split; [|auto].
-        eapply exec_next; [exact C0|exact ST|].
-        eapply exec_jump; [exact CJ|apply GO; unfold s1; apply rget_rset_same; exact Lt2|apply exec_refl].
-      + apply code_at_cons in CA as [C0 CA]. apply code_at_cons in CA as [C1 CA]. apply code_at_cons in CA as [CJ _].
-        set (s0 := rset s TEMP (Some a)). set (s1 := rset s0 TEMP (Some (a + off))).
-        assert (ST : step im (ADDI TEMP TEMP off) s0 = Next s1).
-        { rewrite (step_ADDI_reg im s0 TEMP TEMP a off), W; [reflexivity|]. unfold s0. rewrite TEMP_is. apply rget_rset_same. exact I. }
+        eapply exec_to_trans; [apply (run_straight_exec_to im _ pc s s1 CA0 RS)|].
+        eapply exec_jump; [exact CJ|apply GO; exact V1'|apply exec_refl].
+      + apply code_at_cons in CA as [C0 CA]. apply code_at_app in CA as [CA0 CJ]. apply code_at_cons in CJ as [CJ _].
+        set (s0 := rset s TEMP (Some a)).
+        assert (F0 : frame_ok s0 sp) by (unfold s0; rewrite TEMP_is; apply frame_ok_rset; [discriminate|exact F]).
+        assert (V0 : xget s0 2 = Some a) by (unfold s0; rewrite TEMP_is; cbn [rset]; apply xget_xset_same).
+        rewrite TEMP_is in CA0.
+        destruct (a64_add_offset_ok im s0 2 off a I ltac:(discriminate) V0 IV) as (s1 & RS & V1' & KP & Hsp & Hh & Hst & Ho).
+        rewrite W in V1'.
         destruct (KEEPJ s1) as (A1 & A2 & A3 & A4).
-        { unfold s1, s0. rewrite TEMP_is. apply frame_ok_rset; [discriminate|]. apply frame_ok_rset; [discriminate|exact F]. }
-        { unfold s1, s0. eapply frame_eq_trans; apply frame_eq_rset. }
-        { intros l Ll Nl _. unfold s1, s0.
-          change (rset (rset s TEMP (Some a)) TEMP (Some (a + off))) with (lset (lset s sp (AR TEMP) (Some a)) sp (AR TEMP) (Some (a + off))).
-          rewrite !lget_lset_other; [reflexivity|apply F|rewrite TEMP_is; exact I|exact Ll|congruence|apply F|rewrite TEMP_is; exact I|exact Ll|congruence]. }
+        { split; [rewrite Hsp; apply F0|apply F]. }
+        { split; [rewrite Hh; reflexivity|split; [rewrite Ho; reflexivity|intros kk _; rewrite Hst; reflexivity]]. }
+        { intros l Ll Nl N2' _. rewrite TEMP_is in Nl. rewrite (KEEPX s0 s1 2%N Hsp Hst KP l Ll Nl N2'). unfold s0.
+          apply (lget_lset_other s sp (AR TEMP) l); [apply F|rewrite TEMP_is; exact I|exact Ll|rewrite TEMP_is; congruence]. }
         exists s1. split; [|auto].
         eapply exec_next; [exact C0|rewrite (step_LDR_slot im s sp F) by exact Lt2; rewrite L2; reflexivity|].
-        eapply exec_next; [exact C1|exact ST|].
-        eapply exec_jump; [exact CJ|apply GO; unfold s1; rewrite TEMP_is; apply rget_rset_same; exact I|apply exec_refl]. }
+        eapply exec_to_trans; [apply (run_straight_exec_to im _ _ s0 s1 CA0 RS)|].
+        eapply exec_jump; [exact CJ|apply GO; rewrite TEMP_is; exact V1'|apply exec_refl]. }
   destruct JUMP as (sj & XJ & Rj & LQ & FEj & HEj).
   apply code_at_app in CAb as [CAl CAbd]. apply labels_at_nh_app in LAb as [LAl LAbd].
   destruct ce as [|ce0 cer].
